@@ -419,7 +419,6 @@ theorem grew_nil {a b : St} {e : Bool} (h : Grew a b e) (hb : b.errors = []) : a
 
 theorem du_core (sim : Sim num enc t₂ st l) (env : Env) (henv : env.paths.isEmpty = false) {seg : Seg.Active}
     (ha : st.seg.active = some seg) (d : DataExpr) (hp : d.placed = false) (hcur : d.addr = seg.cur)
-    (hplain : plainArg d.arg = true)
     (h : (match d.apply env st true with
         | .ok (_, st', .completed) => (.ok (st', .ok) : Out (St × Res))
         | .ok (d', st', _) =>
@@ -519,7 +518,7 @@ theorem du_core (sim : Sim num enc t₂ st l) (env : Env) (henv : env.paths.isEm
         show (match Layout.append l (List.replicate d.du.size 0xBE) with | .error e => _ | .ok st' => _) = _
         rw [w3]
       · refine TasksRel.snoc hqr ?_
-        refine ⟨rfl, rfl, ?_, rfl, d.arg, t, n, hsub, hnd, hplain, hev, rfl, rfl⟩
+        refine ⟨rfl, rfl, ?_, rfl, d.arg, t, n, hsub, hnd, hev, rfl, rfl⟩
         show (toL seg).curr = d.addr
         rw [hcurr, hcur]
       · simp [cursor, ha, w1, Nat.add_assoc]
@@ -597,7 +596,7 @@ theorem assemble_deferred_deps {t : Table} (hn : Table.NoDef t) {addr : Nat} {tp
 
 theorem instr_core (henc : EncLen enc) (sim : Sim num enc t₂ st l) (env : Env) (henv : env.paths.isEmpty = false)
     {seg : Seg.Active} (ha : st.seg.active = some seg) (tpl : Instr) (args : List Arg)
-    (hplain : ∀ a ∈ args, plainArg a = true) (file : Bytes) (line col : Nat)
+    (file : Bytes) (line col : Nat)
     (h : (match (⟨file, line, col, ⟨seg.cur, tpl, 0, args⟩, false⟩ : ArmInstr).assemble env st true with
         | .ok (i', st', .completed) =>
           match i'.writeInstr enc st' false with
@@ -708,7 +707,7 @@ theorem instr_core (henc : EncLen enc) (sim : Sim num enc t₂ st l) (env : Env)
           have hall := hasAll_of_known henvr hnd (assemble_completed_deps hfa)
           have hfin : instrFinal enc t₂ (seg.base + seg.buf.length) tpl args = bytes := by
             have := assemble_mono (e₂ := frontEval t₂) (st := ⟨seg.cur, tpl, 0, args⟩)
-              (fun a ha' => grows_of_tables hsub hnd (hplain a ha')) hfa true
+              (fun a ha' => grows_all hsub hnd a) hfa true
             rw [hct] at this
             simp only [instrFinal, this, he]
           refine ⟨_, ?_, simR_seg sim w4 rfl rfl, ?_⟩
@@ -740,7 +739,7 @@ theorem instr_core (henc : EncLen enc) (sim : Sim num enc t₂ st l) (env : Env)
           show (match Layout.append l (List.replicate (ilen tpl) 0xBE) with | .error e => _ | .ok st' => _) = _
           rw [w3]
         · refine TasksRel.snoc hqr ?_
-          refine ⟨rfl, rfl, ?_, ?_, tpl, args, t, c, hsub, hnd, hplain, ?_, rfl, ?_⟩
+          refine ⟨rfl, rfl, ?_, ?_, tpl, args, t, c, hsub, hnd, ?_, rfl, ?_⟩
           · show (toL seg).curr = fs.addr
             rw [hcurr, hka]
           · show ilen tpl = ilen fs.instr
@@ -769,7 +768,7 @@ theorem instrFinal_length (henc : EncLen enc) (t : Table) (addr : Nat) (tpl : In
     | _ => simp
 
 theorem du_sim (sim : Sim num enc t₂ st l) (du : DU) (env : Env) (henv : env.paths.isEmpty = false) (line col : Nat)
-    (args : List Arg) (hplain : ∀ a ∈ args, plainArg a = true)
+    (args : List Arg)
     (h : duDirective du env st line col args = .ok (st', .ok)) (herr : st'.errors = []) :
     ∃ a l', args = [a] ∧ Layout.step l (valueStmt num du.size (idents a) (duFinal t₂ du a)) = .ok l' ∧
       SimR num enc t₂ st' l' ∧ cursor st' = (cursor st).map fun x => x + du.size := by
@@ -784,11 +783,11 @@ theorem du_sim (sim : Sim num enc t₂ st l) (du : DU) (env : Env) (henv : env.p
       obtain ⟨a, rfl⟩ := arity_one har
       simp only at h
       obtain ⟨l', h1, h2, h3⟩ := du_core sim env henv ha ⟨du, env.curName, line, col, seg.cur, a, false⟩ rfl rfl
-        (hplain a (by simp)) h herr
+        h herr
       exact ⟨a, l', rfl, h1, h2, h3⟩
 
 theorem instr_sim (henc : EncLen enc) (sim : Sim num enc t₂ st l) (env : Env) (henv : env.paths.isEmpty = false)
-    (line col : Nat) (name : Bytes) (args : List Arg) (hplain : ∀ a ∈ args, plainArg a = true)
+    (line col : Nat) (name : Bytes) (args : List Arg)
     (h : instruction enc env st line col name args = .ok (st', .ok)) (herr : st'.errors = []) :
     ∃ tpl c l', Front.mnemonic name = some tpl ∧ cursor st = some c ∧
       Layout.step l (valueStmt num (ilen tpl) (instrDeps (Front.kinds tpl) args) (instrFinal enc t₂ c tpl args)) = .ok l' ∧
@@ -803,12 +802,12 @@ theorem instr_sim (henc : EncLen enc) (sim : Sim num enc t₂ st l) (env : Env) 
     | some tpl =>
       rw [hm] at h
       simp only at h
-      obtain ⟨l', h1, h2, h3⟩ := instr_core henc sim env henv ha tpl args hplain env.curName line col h herr
+      obtain ⟨l', h1, h2, h3⟩ := instr_core henc sim env henv ha tpl args env.curName line col h herr
       exact ⟨tpl, seg.base + seg.buf.length, l', rfl, by simp [cursor, ha], h1, h2, by rw [h3]; simp [cursor, ha]⟩
 
 theorem statement_sim (hinj : Function.Injective num) (henc : EncLen enc) (sim : Sim num enc t₂ st l)
     (fs : Bytes → Option Bytes) (inc : Inc) (env : Env) (path : Bytes) (henv : env.paths = [path]) (el : Element)
-    (hok : okEl el = true) (hpl : plainEl el = true)
+    (hok : okEl el = true)
     (h : statement fs enc inc env st el = .ok (st', .ok)) (herr : st'.errors = [])
     (hT : ∀ t', st'.locals = some t' → Table.Sub t' t₂) :
     ∃ l', Layout.step l (absStmt num fs enc path t₂ (cursor st) el) = .ok l' ∧ SimR num enc t₂ st' l' ∧
@@ -820,18 +819,16 @@ theorem statement_sim (hinj : Function.Injective num) (henc : EncLen enc) (sim :
     obtain ⟨l', h1, h2, h3⟩ := label_sim hinj sim fs inc env line col name h hT
     exact ⟨l', by simpa [absStmt] using h1, h2, by simp [absStmt, Layout.Ref.next, h3]⟩
   | instruction name args =>
-    simp only [plainEl, List.all_eq_true] at hpl
     simp only [statement] at h
     split at h
     · simp at h
-    · obtain ⟨tpl, c, l', hm, hc, h1, h2, h3⟩ := instr_sim henc sim env henv' line col name args.toList hpl h herr
+    · obtain ⟨tpl, c, l', hm, hc, h1, h2, h3⟩ := instr_sim henc sim env henv' line col name args.toList h herr
       refine ⟨l', ?_, h2, ?_⟩
       · simp only [absStmt, hm, hc, Option.getD_some]; exact h1
       · simp only [absStmt, hm, hc, Option.getD_some]
         rw [next_value _ _ _ _ _ (instrFinal_length henc _ _ _ _), h3]
         rfl
   | directive name args =>
-    simp only [plainEl, List.all_eq_true] at hpl
     simp only [okEl, Bool.not_eq_true', Bool.or_eq_false_iff, decide_eq_false_iff_not] at hok
     obtain ⟨⟨⟨hn1, hn2⟩, hn3⟩, hn4⟩ := hok
     simp only [statement] at h
@@ -863,7 +860,7 @@ theorem statement_sim (hinj : Function.Injective num) (henc : EncLen enc) (sim :
           SimR num enc t₂ st' l' ∧
           cursor st' = Layout.Ref.next (cursor st) (absStmt num fs enc path t₂ (cursor st) ⟨line, col, .directive name args⟩) := by
       intro du hdu hd g1 g2 g3
-      obtain ⟨a, l', ha, h1, h2, h3⟩ := du_sim sim du env henv' line col args.toList hpl hd herr
+      obtain ⟨a, l', ha, h1, h2, h3⟩ := du_sim sim du env henv' line col args.toList hd herr
       refine ⟨l', ?_, h2, ?_⟩
       · simp only [absStmt, h0, h1', h2', g1, g2, g3, if_false, ha, hdu]; exact h1
       · simp only [absStmt, h0, h1', h2', g1, g2, g3, if_false, ha, hdu]
